@@ -342,6 +342,7 @@ def run(ctx):
                    ch.methods[f'apply_{g}'].lineno, construct=f'apply_{g}:{e}')
 
     _structure_rules(ctx, repo)
+    _measurement_rule(ctx, repo)
 
 
 class _Touched(Exception):
@@ -490,3 +491,193 @@ def _structure_rules(ctx, repo):
                    '' if not breaking else f'the index of {ast.unparse(st.value)} passes through {breaking}: the order of `axes` is lost', cg.rel, st.lineno)
     if n_idx == 0:
         raise AnalysisError('_pad_tableau: no store indexed by the axes found')
+
+
+# ---------------------------------------------------------------------------------------------------- measurement
+def _ag_g(x1, z1, x2, z2):
+    if not x1 and not z1:
+        return 0
+    if x1 and z1:
+        return int(z2) - int(x2)
+    if x1 and not z1:
+        return int(z2) * (2 * int(x2) - 1)
+    return int(x2) * (1 - 2 * int(z2))
+
+
+class _RefTableau:
+    """Aaronson-Gottesman tableau (reference implementation in the checker): rows 0..n-1 destabilizers, n..2n-1 stabilizers."""
+
+    def __init__(self, n):
+        self.n = n
+        self.xs = np.zeros((2 * n, n), dtype=bool)
+        self.zs = np.zeros((2 * n, n), dtype=bool)
+        self.rs = np.zeros(2 * n, dtype=bool)
+        for i in range(n):
+            self.xs[i, i] = True
+            self.zs[n + i, i] = True
+
+    def copy(self):
+        t = _RefTableau(self.n)
+        t.xs, t.zs, t.rs = self.xs.copy(), self.zs.copy(), self.rs.copy()
+        return t
+
+    def h(self, a):
+        self.rs ^= self.xs[:, a] & self.zs[:, a]
+        self.xs[:, a], self.zs[:, a] = self.zs[:, a].copy(), self.xs[:, a].copy()
+
+    def s(self, a):
+        self.rs ^= self.xs[:, a] & self.zs[:, a]
+        self.zs[:, a] ^= self.xs[:, a]
+
+    def cx(self, a, b):
+        self.rs ^= self.xs[:, a] & self.zs[:, b] & ~(self.xs[:, b] ^ self.zs[:, a])
+        self.xs[:, b] ^= self.xs[:, a]
+        self.zs[:, a] ^= self.zs[:, b]
+
+    @staticmethod
+    def _rowsum(xs, zs, rs, h, i, n):
+        r = 2 * int(rs[h]) + 2 * int(rs[i])
+        for j in range(n):
+            r += _ag_g(xs[i, j], zs[i, j], xs[h, j], zs[h, j])
+        rs[h] = bool(r % 4)
+        xs[h, :] ^= xs[i, :]
+        zs[h, :] ^= zs[i, :]
+
+    def measure(self, a, bit):
+        n = self.n
+        p = next((i for i in range(n, 2 * n) if self.xs[i, a]), None)
+        if p is None:
+            xs = np.vstack([self.xs, np.zeros((1, n), dtype=bool)])
+            zs = np.vstack([self.zs, np.zeros((1, n), dtype=bool)])
+            rs = np.append(self.rs, False)
+            for i in range(n):
+                if self.xs[i, a]:
+                    self._rowsum(xs, zs, rs, 2 * n, n + i, n)
+            return int(rs[2 * n])
+        for i in range(2 * n):
+            if i != p and self.xs[i, a]:
+                self._rowsum(self.xs, self.zs, self.rs, i, p, n)
+        self.xs[p - n, :] = self.xs[p, :]
+        self.zs[p - n, :] = self.zs[p, :]
+        self.rs[p - n] = self.rs[p]
+        self.xs[p, :] = False
+        self.zs[p, :] = False
+        self.zs[p, a] = True
+        self.rs[p] = bool(bit)
+        return int(bit)
+
+
+def _measurement_rule(ctx, repo):
+    import itertools as _it
+    ctx.decided.append('C13.g CliffordTableau._measure and _rowsum (interpreted) agree with the Aaronson-Gottesman measurement on every tableau reachable from |0..0> '
+                       'with up to 3 gates on 2 qubits (and sampled 3-qubit ones), for both values of the random bit, including a second measurement after further gates')
+    ctx.rule('C13.g', 'stabilizer measurement by interpretation: outcome and the whole tableau (destabilizers, stabilizers, signs) after _measure(q) equal the reference '
+             'algorithm; histories measure - gates - measure are followed with the interpreted state carried along (scratch row included)', floor=3, style='FDX')
+    ci = repo.cls(TAB)
+    mfn, rfn = ci.methods.get('_measure'), ci.methods.get('_rowsum')
+    if mfn is None or rfn is None:
+        raise AnalysisError('CliffordTableau._measure / _rowsum vanished')
+
+    def model_of(ref, scratch=None):
+        n = ref.n
+        _xs = np.vstack([ref.xs, np.zeros((1, n), dtype=bool)])
+        _zs = np.vstack([ref.zs, np.zeros((1, n), dtype=bool)])
+        _rs = np.append(ref.rs, False)
+        if scratch is not None:
+            _xs[2 * n], _zs[2 * n], _rs[2 * n] = scratch
+        return {'n': n, '_xs': _xs, '_zs': _zs, '_rs': _rs, 'xs': _xs[:-1, :], 'zs': _zs[:-1, :], 'rs': _rs[:-1]}
+
+    def interp_measure(model, a, bit):
+        def call_hook(call, it):
+            s_ = ast.unparse(call.func)
+            if s_ == 'self._rowsum':
+                sub = fdx.NumInterp({'self': model, rfn.args.args[1].arg: it.ev(call.args[0]), rfn.args.args[2].arg: it.ev(call.args[1])}, call_hook=call_hook)
+                sub.call(rfn)
+                return None
+            if s_.endswith('.randint'):
+                return bit
+            return NotImplemented
+        it = fdx.NumInterp({'self': model, mfn.args.args[1].arg: a, mfn.args.args[2].arg: 'PRNG'}, call_hook=call_hook)
+        try:
+            return it.call(mfn)
+        except fdx.Unsupported as ex:
+            raise AnalysisError(f'CliffordTableau._measure is outside the interpretable subset: {ex}')
+    GATES2 = [('h', 0), ('h', 1), ('s', 0), ('s', 1), ('cx', 0, 1), ('cx', 1, 0)]
+
+    def apply(ref, g):
+        getattr(ref, g[0])(*g[1:])
+
+    def apply_model(model, g):
+        # the same reference gate acting on the interpreted arrays (rows 0..2n-1; the scratch row is left as the code left it)
+        t = _RefTableau(model['n'])
+        t.xs, t.zs, t.rs = model['xs'], model['zs'], model['rs']      # views: in place
+        if g[0] == 'h':
+            a = g[1]
+            t.rs ^= t.xs[:, a] & t.zs[:, a]
+            tmp = t.xs[:, a].copy()
+            t.xs[:, a] = t.zs[:, a]
+            t.zs[:, a] = tmp
+        else:
+            getattr(t, g[0])(*g[1:])
+    seqs = [()]
+    for k in (1, 2, 3):
+        seqs += list(_it.product(GATES2, repeat=k))
+    seen = set()
+    n_cmp = 0
+    bad = {}
+    for seq in seqs:
+        ref = _RefTableau(2)
+        for g in seq:
+            apply(ref, g)
+        sig = (ref.xs.tobytes(), ref.zs.tobytes(), ref.rs.tobytes())
+        if sig in seen:
+            continue
+        seen.add(sig)
+        for a, bit in _it.product((0, 1), (0, 1)):
+            r1 = ref.copy()
+            m1 = model_of(ref)
+            want = r1.measure(a, bit)
+            got = interp_measure(m1, a, bit)
+            n_cmp += 1
+            same = got == want and np.array_equal(m1['xs'], r1.xs) and np.array_equal(m1['zs'], r1.zs) and np.array_equal(m1['rs'], r1.rs)
+            key = 'first-measurement'
+            if not same:
+                bad.setdefault(key, f'after {seq or "no gates"} measuring qubit {a} (random bit {bit}): outcome {got} / tableau differ from the reference (outcome {want})')
+                continue
+            # a second measurement after two more gates, on the state the interpreted code left behind
+            TAILS = (((('cx', a, 1 - a)), ('h', a)), (('h', 1 - a), ('cx', 1 - a, a)), (('s', a), ('h', a)))
+            for tail in (TAILS if ctx.tier == 'thorough' else TAILS[:1]):
+                for b in (0, 1):
+                    r2 = r1.copy()
+                    m2 = {k_: (v.copy() if isinstance(v, np.ndarray) else v) for k_, v in m1.items() if k_.startswith('_') or k_ == 'n'}
+                    m2['xs'], m2['zs'], m2['rs'] = m2['_xs'][:-1, :], m2['_zs'][:-1, :], m2['_rs'][:-1]
+                    for g in tail:
+                        apply(r2, g)
+                        apply_model(m2, g)
+                    for bit2 in (0, 1):
+                        r3, m3 = r2.copy(), {k_: (v.copy() if isinstance(v, np.ndarray) else v) for k_, v in m2.items() if k_.startswith('_') or k_ == 'n'}
+                        m3['xs'], m3['zs'], m3['rs'] = m3['_xs'][:-1, :], m3['_zs'][:-1, :], m3['_rs'][:-1]
+                        want2 = r3.measure(b, bit2)
+                        got2 = interp_measure(m3, b, bit2)
+                        n_cmp += 1
+                        if not (got2 == want2 and np.array_equal(m3['xs'], r3.xs) and np.array_equal(m3['zs'], r3.zs) and np.array_equal(m3['rs'], r3.rs)):
+                            bad.setdefault('second-measurement', f'after {seq or "no gates"}, measure {a} (bit {bit}), {tail}, measuring qubit {b}: outcome {got2}, reference {want2}')
+    # sampled three-qubit states
+    rng = np.random.RandomState(11)
+    G3 = [('h', q) for q in range(3)] + [('s', q) for q in range(3)] + [('cx', a, b) for a in range(3) for b in range(3) if a != b]
+    for _ in range(40):
+        ref = _RefTableau(3)
+        for k in rng.randint(len(G3), size=6):
+            apply(ref, G3[k])
+        for a in range(3):
+            for bit in (0, 1):
+                r1, m1 = ref.copy(), model_of(ref)
+                want, got = r1.measure(a, bit), interp_measure(m1, a, bit)
+                n_cmp += 1
+                if not (got == want and np.array_equal(m1['xs'], r1.xs) and np.array_equal(m1['zs'], r1.zs) and np.array_equal(m1['rs'], r1.rs)):
+                    bad.setdefault('three-qubit', f'three-qubit tableau, measuring qubit {a} (bit {bit}): outcome {got}, reference {want}')
+    for key in ('first-measurement', 'second-measurement', 'three-qubit'):
+        ctx.ob('C13.g', f'{TAB}._measure:{key}', key not in bad, bad.get(key, ''), ci.mod.rel, mfn.lineno)
+    ctx.notes.append(f'C13.g compared {n_cmp} interpreted measurements on {len(seen)} distinct two-qubit tableaux and 40 three-qubit ones')
+    if n_cmp < 100:
+        raise AnalysisError('C13.g: too few measurement comparisons')
